@@ -26,3 +26,14 @@ C['C12'] = dict(
  text="Call templates (0-4 parameters x 0-4 locals x 8 expression contexts; direct, mutual and double recursion to depth 200; empty bodies; functions stored, passed, returned) and random call-heavy programs are run by the real interpreter; results are validated against NlSem and the recorded dispatch events against the frame discipline of NlFrames, step by step with the specification's own frame stack.",
  ref="DESIGN.md 5 C12",
  note="Trusted: TLC, the recorder. Depth beyond the specification's MaxDepth/step budget is skipped (counted). The 16-bit stack-index limit is not driven to its end (would need 65 535 live slots; recorded in DESIGN.md 6).")
+C['C03'] = dict(
+ tech="TLA+ model of the collector (NlGC: set-level design and vector/bitmap algorithm in lock step, refinement as invariant) model-checked exhaustively by TLC; its behaviours replayed on the real collector (TV_GCReplay); heap/collector event traces of real evaluations validated against the trace specification NlHeapLedger",
+ text="TLC checks all operation sequences (alloc, link, unroot, collect, untrace, drop, caller-free) over a small object universe: nothing reachable is ever released, nothing twice, the algorithm implements the design (and two realistic deviations are refuted on every run). Simulated behaviours of the model are executed on the real GC type and compared operation by operation; and the shadow-heap / collector event stream of allocating programs is validated event by event: every dereference hits a live box, every collection keeps everything reachable from the machine's own snapshot of its roots, the roots passed cover that snapshot.",
+ ref="DESIGN.md 5 C03",
+ note="Trusted: TLC, the hooks (shadow heap keyed by box address with quarantine; snapshot taken from the machine state). Known finding KF-C03-MARK (gc.rs mark index) is reported as KNOWN-FINDING; any other class is a violation.")
+C['C04'] = dict(
+ tech="as C03 (NlGC model, replay, NlHeapLedger) with the precision/emptiness invariants, plus fault enumeration: one ledger trace per abort point k = 0..L of each allocating program, validated by TLC",
+ cat="model_checking",
+ text="The model's invariants Precise (after a collection the collector manages exactly what is reachable) and Nothing (after drop and the caller's releases nothing is live) are checked exhaustively; on the real code the ledger of every run - and of every run cut short by an injected error after exactly k instructions, for every k - is audited by the trace specification after the harness has released the result graph: no box live, none released twice.",
+ ref="DESIGN.md 5 C04",
+ note="Known finding KF-C04-SWEEP (no object is ever released by the collector) is reported as KNOWN-FINDING for the classes it explains (kept-garbage at a collection, managed-by-a-dropped-collector at the end); double releases, boxes lost by nobody and any C03 class are violations.")
